@@ -1,6 +1,6 @@
 #!/usr/bin/env python3
 """Prints markdown fragments for DESIGN.md section 11 from the files on disk (theorem names, partial lists,
-assumptions, known findings, seeds)."""
+known findings)."""
 import os, sys, re, json, glob, importlib.util
 sys.path.insert(0, os.path.dirname(os.path.abspath(__file__)))
 import vlib
